@@ -103,8 +103,62 @@ let table : (string * (bval -> bval outcome)) list = [
   "vector_get", impl_vector_get; "vector_push", impl_vector_push; "vector_sum", impl_vector_sum;
 ]
 
-(* reference specs (BuiltinSpec.v) on the flattened argument; filled in below *)
-let spec_table : (string * (bval -> string)) list = []
+(* reference specs (BuiltinSpec.v) run on the flattened argument *)
+let dump_flat (l : z list) : string =
+  let len = List.length l in
+  if len <= 4096 then Printf.sprintf "(b %d %s)" len (hex l)
+  else
+    let a = Array.of_list l in
+    let samples = List.map (fun i -> Printf.sprintf "%02x" (int_of_z a.(i))) (sample_positions len) in
+    Printf.sprintf "(b %d ~%s)" len (String.concat "" samples)
+
+let rec dump_fval = function
+  | FInt z -> "(i " ^ string_of_z z ^ ")"
+  | FBin l -> dump_flat l
+  | FTup fs -> "(t" ^ String.concat "" (List.map (fun f -> " " ^ dump_fval f) fs) ^ ")"
+  | FOther -> "(o)"
+
+let dump_fout = function
+  | Val v -> "(ok " ^ dump_fval v ^ ")"
+  | Err e -> "(err " ^ err_name e ^ ")"
+  | Panic _ -> "(panic)"
+
+(* the specs are plain mathematics (2^k, flat lists): skip the cases where running them literally
+   would need astronomically large numbers or lists; the theorems cover those *)
+let small_z (z : z) (bound : int) : bool =
+  match z with Z0 -> true | Zpos p | Zneg p -> List.length (bits_of_pos p) <= 40 && int_of_pos p <= bound
+let rec ropes_small (v : bval) : bool =
+  match v with
+  | BBin r -> small_z (rlen r) 65536
+  | BTup fs -> List.for_all ropes_small fs
+  | _ -> true
+let spec_runnable (name : string) (v : bval) : bool =
+  ropes_small v &&
+  (match name, v with
+   | "binary_new", BInt n -> small_z n 65536
+   | "binary_repeat", BTup [BBin r; BInt c] -> small_z c 65536 && int_of_z (rlen r) * int_of_z c <= 65536
+   | "binary_shift", BTup [BBin r; BInt k] -> small_z k (8 * int_of_z (rlen r) + 64)
+   | "integer_shift", BTup [_; BInt k] -> small_z k 200
+   | _ -> true)
+
+let mk_spec (f : fval -> fval outcome) : bval -> string = fun v -> dump_fout (f (flatten v))
+let spec_table : (string * (bval -> string)) list = [
+  "binary_new", mk_spec spec_binary_new; "binary_length", mk_spec spec_binary_length;
+  "binary_concat", mk_spec spec_binary_concat; "binary_repeat", mk_spec spec_binary_repeat;
+  "binary_and", mk_spec spec_binary_and; "binary_or", mk_spec spec_binary_or; "binary_xor", mk_spec spec_binary_xor;
+  "binary_not", mk_spec spec_binary_not; "binary_shift", mk_spec spec_binary_shift;
+  "binary_popcount", mk_spec spec_binary_popcount; "binary_get", mk_spec spec_binary_get;
+  "binary_set", mk_spec spec_binary_set; "binary_slice", mk_spec spec_binary_slice;
+  "binary_index", mk_spec spec_binary_index; "binary_hash32", mk_spec spec_binary_hash32;
+  "binary_hash64", mk_spec spec_binary_hash64; "binary_append", mk_spec spec_binary_append;
+  "vector_add", mk_spec spec_vector_add; "vector_subtract", mk_spec spec_vector_subtract;
+  "vector_multiply", mk_spec spec_vector_multiply; "vector_less_than", mk_spec spec_vector_less_than;
+  "vector_equal", mk_spec spec_vector_equal; "vector_greater_than", mk_spec spec_vector_greater_than;
+  "vector_dot", mk_spec spec_vector_dot; "vector_take", mk_spec spec_vector_take; "vector_get", mk_spec spec_vector_get;
+  "vector_push", mk_spec spec_vector_push; "vector_sum", mk_spec spec_vector_sum;
+  "integer_not", mk_spec spec_integer_not; "integer_shift", mk_spec spec_integer_shift;
+  "integer_popcount", mk_spec spec_integer_popcount;
+]
 
 let () =
   if Array.length Sys.argv > 1 && Sys.argv.(1) = "--names" then
@@ -121,7 +175,8 @@ let () =
             (match List.assoc_opt (Sexp.atom name) spec_table with
              | None -> print_endline "(unspecified)"
              | Some f ->
-               print_endline (try f (bval_of arg) with
+               let v = bval_of arg in
+               print_endline (try (if spec_runnable (Sexp.atom name) v then f v else "(unspecified)") with
                    | Stack_overflow -> "(unspecified)"
                    | Out_of_memory -> "(unspecified)"))
           | _ -> print_endline "(bad-case)"
